@@ -177,6 +177,7 @@ def obligations(tier):
     q = tier == "quick"
     obs = []
     cases = [("dot", "K", [3], [2, 0, 3]), ("mv", "MK", [2, 3], [2, 0, 3]), ("mv", "KM", [2, 3], [2, 0, 3]), ("reduce", "row", [2, 3], []),
+             ("mv", "MK-ref", [2, 3], [2, 0, 3]), ("mv", "MK-dense", [2, 2], [2, 0]),
              ("mm", "MNK", [2, 2], [[2, 0], [0, 3]])]
     if not q:
         cases += [("dot", "t2", [3], [2, 3, 3]), ("mv", "MK1K0/2", [2, 3], [2, 0, 3]), ("mv", "MK", [3, 3], [2, 0, 3]), ("mm", "MKN", [2, 2], [[2, 0], [0, 3]]),
